@@ -51,7 +51,7 @@ class OW:
         self._c, self._i, self._st, self._o = ctx, interp, st, obj
 
     def __getattr__(self, name):
-        if name.startswith("_"):
+        if name.startswith("__") or name in ("_c", "_i", "_st", "_o"):
             raise AttributeError(name)
         o = self._o
         if name in o.fields:
@@ -291,7 +291,10 @@ class Ctx:
             self.oblige(state, f"raises.{typ}", cond, {"exception": repr(exc)})
 
     def args_ns(self, state):
-        return NS({k: wrap(self, self.interp, state, v) for k, v in self.args.items()})
+        ns = NS({k: wrap(self, self.interp, state, v) for k, v in self.args.items()})
+        if getattr(self, "old_ns", None) is not None:
+            ns.__dict__["old"] = self.old_ns      # exceptional postconditions may relate to the pre-state
+        return ns
 
 
 class _CalleeApply:
